@@ -315,6 +315,26 @@ fn main() {
                 || ret!(len, len, tv().rolling_custom::<TraceOut<f64>, _, _>(w, |s: Vec<f64>| s.len() as f64, None).unwrap()));
             em.case("custom:trace", &tg("custom_write", len), &ds("custom_write", len), || term(6, len),
                 || to!(len, len, |b| tv().rolling_custom::<TraceOut<f64>, _, _>(w, |s: Vec<f64>| s.len() as f64, b)));
+            // audit YB: the default rolling_custom with a caller buffer of ANOTHER length lo (uninit.rs write_trust_iter: empty
+            // buffer -> Ok, nothing pulled; one-element series -> its single item stored in every slot; otherwise Err -> `unwrap`
+            // panics before anything is pulled or stored).  Cells: (lo, len) - the writes are bounded by the BUFFER.  Model:
+            // run_custom_write (Model/Kernels.v custom_write_call).  No use of the generator: the stream of the other cases is unchanged.
+            {
+                let mut los: Vec<usize> = vec![0, 1, 3, len + 1, len.saturating_sub(1)];
+                los.sort(); los.dedup(); los.retain(|&lo| lo != len);
+                for lo in los {
+                    em.case("custom:trace", &format!("{} buf={}", tg("custom_write_buf", lo), if lo == 0 { "empty" } else if len == 1 { "bcast" } else { "mismatch" }),
+                        &format!("{} lo={}", ds("custom_write_buf", len), lo),
+                        || format!("(run_custom_write {} {} {})", coq_nat(w), coq_nat(len), coq_nat(lo)),
+                        || { let _ = take_log(); let r = guarded(std::panic::AssertUnwindSafe(|| -> Option<TraceOut<f64>> {
+                                let mut u = TraceOut::<f64>::uninit(lo);
+                                {
+                                    let b = Some(TraceOut::<f64>::uninit_ref_mut(&mut u));
+                                    let _: Option<TraceOut<f64>> = tv().rolling_custom::<TraceOut<f64>, _, _>(w, |s: Vec<f64>| s.len() as f64, b);
+                                }
+                                Some(unsafe { u.assume_init() }) })); assemble(lo, len, r) });
+                }
+            }
             // Vec input (fast paths allocate the output themselves): only the writes are visible
             em.case("custom:writes", &tg("vec_apply_ret", len), &ds("vec_apply_ret", len), || term(0, len),
                 || ret!(len, len, xs.rolling_apply::<TraceOut<f64>, _, _>(w, |_rm, v| v, None).unwrap()));
